@@ -151,6 +151,41 @@ def run(ctx):
         rep.check(emit_ok, "D2-NEWEST-FIRST", where(gr), "return-rule:has-emitter", "a rule is returned only if it has an emitter",
                   "rule returned without its emit pointer having been tested", line=r.line)
 
+    # ---- D2b: every registration takes a new, last slot -----------------------------------------
+    # "A rule set registered later takes precedence" holds because the search runs from the last slot down AND a later
+    # registration always lands in a later slot: every non-NULL return of orc_rule_set_new must hand out
+    # rule_sets + n_rule_sets of the count that is incremented on the way to the return.
+    rsn = db.func("orc_rule_set_new", "orcrule")
+    TG2 = [p_["name"] for p_ in rsn.params if "OrcTarget" in p_.get("ty", "")]
+    if len(TG2) != 1:
+        raise AnalysisBroken("orc_rule_set_new: target parameter not identified")
+    TG2 = TG2[0]
+    incs = [n for n in rsn.walk() if (n.k == "UnaryOperator" and n.op == "++" and access_path(n.c[0]) == "%s->n_rule_sets" % TG2) or
+            (n.k == "CompoundAssignOperator" and n.op == "+=" and access_path(n.c[0]) == "%s->n_rule_sets" % TG2 and strip_casts(n.c[1]).v == 1)]
+    nret = 0
+    for r in rsn.walk():
+        if r.k != "ReturnStmt" or not r.c or r.c[0] is None:
+            continue
+        e = strip_casts(r.c[0])
+        if e.v == 0 or unparse(e) in ("(void *)0", "0"):
+            continue
+        nret += 1
+        ok = False
+        why = "returns `%s`" % unparse(e)
+        if e.k == "DeclRefExpr":
+            defs = [strip_casts(d.c[1]) for d in rsn.walk() if d.k == "BinaryOperator" and d.op == "=" and access_path(d.c[0]) == e.name]
+            defs += [strip_casts(d.c[0]) for d in rsn.walk() if d.k == "VarDecl" and d.name == e.name and d.c and d.c[0] is not None]
+            good = [d for d in defs if d is not None and d.k == "BinaryOperator" and d.op == "+" and access_path(d.c[0]) == "%s->rule_sets" % TG2 and
+                    access_path(d.c[1]) == "%s->n_rule_sets" % TG2]
+            other = [d for d in defs if d not in good]
+            ok = bool(good) and not other and any(rsn.dominates(i_, r) for i_ in incs)
+            why = "`%s` is defined as %s; increment of n_rule_sets dominating the return: %s" % (e.name, [unparse(d) for d in defs], any(rsn.dominates(i_, r) for i_ in incs))
+        rep.check(ok, "D2-NEWEST-FIRST", where(rsn), "new-slot", "a registration always takes the slot after the last one",
+                  "orc_rule_set_new can hand out something other than a fresh last slot (%s): a rule set registered later then sits BELOW "
+                  "earlier ones in the search order and no longer takes precedence" % why, line=r.line)
+    if nret < 1:
+        raise AnalysisBroken("orc_rule_set_new: no non-NULL return")
+
     # ---- D3 ------------------------------------------------------------------
     ee = db.func("orc_executor_emulate", "orcexecutor")
     src = [unparse(n.c[1]) for n in ee.walk() if n.k == "BinaryOperator" and n.op == "=" and unparse(n.c[0]).endswith(".emulateN")]
